@@ -77,6 +77,17 @@ def handle : List String → Option String
   | "c07holds" :: _k :: _sched :: evs => do
     let toks ← evs.mapM parseTok
     some (toString (GoSup.Spec.C07.holds (toks.map toSpecEv)))
+  | "c07liftholds" :: rest => do
+    let hung := rest.contains "hung=true"
+    let evs := rest.filter fun w => !(w.contains '=') && !(w.contains '~')
+    let num (w : String) (n : Nat) : Nat := ((w.drop n).toString.takeWhile Char.isDigit).toString.toNat?.getD 0
+    let t := evs.map fun w =>
+      if w.startsWith "RI" then GoSup.Spec.C07.LEv.runInv (num w 2)
+      else if w.startsWith "RR" then .runRet (num w 2)
+      else if w.startsWith "SC" then .stopCall (num w 2)
+      else if w.startsWith "SR" then .stopRet (num w 2)
+      else .other
+    some (toString (GoSup.Spec.C07.liftHolds hung t))
   | _ => none
 
 end Driver.Lifecycle
